@@ -1,6 +1,7 @@
 import KrakenModel.Util.LTS
 import KrakenModel.Model.PieceRequest
 import KrakenModel.Proof.C15
+import KrakenModel.Proof.C15History
 /-
   C15  Piece request bookkeeping respects pipeline limits and peer removal.
   Statements are about `Model.PieceRequest`, which the correspondence check ties to
@@ -300,6 +301,62 @@ theorem no_duplicate_outside_endgame (cfg : Config) (ops : List Op) (hne : ∀ o
       exact ih _ (fun o ho => hno o (List.mem_cons_of_mem _ ho)) (step_piece cfg s o (hno o List.mem_cons_self) h)
   exact this ops (sys cfg).init hne (by intro i; simp [liveOfPiece, cnt, sys]) i
 
+/-- endgame reservations of this history never include piece `i` -/
+def noEndgameFor (i : Piece) : Op → Prop
+  | .reserve _ _ _ _ dup chosen => dup = true → i ∉ chosen
+  | _ => True
+
+/-- **C15 (2c)** Per piece: for every history in which no endgame reservation took piece `i`
+(other pieces may have been reserved in endgame at any time), piece `i` never has two unexpired
+pending requests. -/
+theorem no_duplicate_for_piece (cfg : Config) (ops : List Op) (i : Piece) (hne : ∀ o ∈ ops, noEndgameFor i o) :
+    liveOfPiece cfg ((sys cfg).run ops) i ≤ 1 := by
+  have hstep : ∀ (s : State) (o : Op), noEndgameFor i o → liveOfPiece cfg s i ≤ 1 → liveOfPiece cfg (step cfg s o) i ≤ 1 := by
+    intro s o hno h
+    by_cases ho : ∀ p origin cands prio dup chosen, o ≠ .reserve p origin cands prio dup chosen
+    · exact Nat.le_trans (cnt_step_le cfg _ s o ho) h
+    · have : ∃ p origin cands prio dup chosen, o = .reserve p origin cands prio dup chosen := by
+        cases o <;> simp at ho ⊢
+      obtain ⟨p, origin, cands, prio, dup, chosen, rfl⟩ := this
+      simp only [noEndgameFor] at hno
+      simp only [step]
+      rcases reserve_cases cfg s p origin cands prio dup chosen with hr | ⟨hr, _, hnd, _, hval⟩
+      · rw [hr]; exact h
+      · rw [hr]
+        have hc := cnt_addAll cfg (fun j _ => j == i) p chosen s
+        simp only [liveOfPiece] at h ⊢
+        have h1 : (chosen.filter (· == i)).length ≤ 1 := len_filter_eq_nodup chosen hnd i
+        by_cases hm : i ∈ chosen
+        · have hd : dup = false := by
+            cases dup with
+            | false => rfl
+            | true => exact absurd hm (hno rfl)
+          subst hd
+          have h0 : cnt cfg (fun j _ => j == i) s = 0 := by
+            simp only [cnt, List.length_eq_zero_iff, List.filter_eq_nil_iff]
+            intro r hr
+            have := noLiveAny_of_valid (hval i hm).2 r hr
+            simp only [Bool.and_eq_true, beq_iff_eq, not_and]
+            intro h1
+            simp [this h1]
+          omega
+        · have : chosen.filter (· == i) = [] := by
+            rw [List.filter_eq_nil_iff]; intro x hx hxe
+            have : x = i := by simpa using hxe
+            exact hm (this ▸ hx)
+          rw [this] at hc
+          simp at hc; omega
+  have : ∀ (ops : List Op) (s : State), (∀ o ∈ ops, noEndgameFor i o) → liveOfPiece cfg s i ≤ 1 →
+      liveOfPiece cfg ((sys cfg).runFrom s ops) i ≤ 1 := by
+    intro ops
+    induction ops with
+    | nil => intro s _ h; simpa [Sys.runFrom] using h
+    | cons o os ih =>
+      intro s hno h
+      simp only [Sys.runFrom, List.foldl_cons]
+      exact ih _ (fun o ho => hno o (List.mem_cons_of_mem _ ho)) (hstep s o (hno o List.mem_cons_self) h)
+  exact this ops (sys cfg).init hne (by simp [liveOfPiece, cnt, sys])
+
 /-- what a report entry says about its request -/
 theorem report_some {cfg : Config} {now : Int} {r : Req} {x : Piece × Peer × Status} (h : report cfg now r = some x) :
     x.1 = r.piece ∧ x.2.1 = r.peer ∧
@@ -499,6 +556,72 @@ theorem failed_exact (cfg : Config) (ops : List Op) :
       | unsent => exact .inr (.inl rfl)
       | invalid => exact .inr (.inr rfl)
 
+/-- what `GetFailedRequests` says about a held request at time `now` -/
+def reportP (cfg : Config) (now : Int) (x : PReq) : Option (Piece × Peer × Status) :=
+  if x.2.2.2 = .pending then (if now > x.2.2.1 + cfg.timeout then some (x.1, x.2.1, .expired) else none)
+  else some (x.1, x.2.1, x.2.2.2)
+
+/-- **C15 (5)** History-level form of "the failed-request report lists exactly the requests that
+expired, were not sent, or got an invalid reply": for every history, `GetFailedRequests` is — in
+reservation order, one entry per request — exactly the list obtained from the history alone:
+every piece a `ReservePieces` call reserved (`accepted`), unless a later `Clear` of that piece or
+`ClearPeer` of that peer came after it (`cleared`), reported with the status of the last later
+`MarkUnsent`/`MarkInvalid` for that peer and piece (`finalMark`), or as expired when none came and
+the request's timeout has passed, and not at all while it is pending and unexpired. -/
+theorem failed_is_history (cfg : Config) (ops : List Op) :
+    failed cfg ((sys cfg).run ops) =
+      (heldFrom cfg (sys cfg).init ops).filterMap (reportP cfg ((sys cfg).run ops).now) := by
+  have h := runFrom_proj cfg ops (sys cfg).init
+  have hrep : ∀ (now : Int) (r : Req), report cfg now r = reportP cfg now (proj r) := by
+    intro now r
+    simp only [report, reportP, proj, expired]
+    by_cases hp : r.status = .pending
+    · by_cases he : now > r.sentAt + cfg.timeout <;> simp [hp, he]
+    · simp [hp]
+  have hf : failed cfg ((sys cfg).run ops) =
+      (((sys cfg).run ops).reqs.map proj).filterMap (reportP cfg ((sys cfg).run ops).now) := by
+    simp only [failed, List.filterMap_map]
+    apply filterMap_congr'
+    intro r _
+    exact hrep _ r
+  rw [hf]
+  have : ((sys cfg).run ops).reqs.map proj = heldFrom cfg (sys cfg).init ops := by
+    have h' : (sys cfg).run ops = ops.foldl (step cfg) (sys cfg).init := rfl
+    rw [h', h]
+    simp [sys]
+  rw [this]
+
+/-- the clock at the end of a history is the sum of its advances -/
+theorem now_is_advances (cfg : Config) (ops : List Op) :
+    ((sys cfg).run ops).now = (ops.map fun o => match o with | .advance d => (d : Int) | _ => 0).sum := by
+  have : ∀ (ops : List Op) (s : State),
+      ((sys cfg).runFrom s ops).now = s.now + (ops.map fun o => match o with | .advance d => (d : Int) | _ => 0).sum := by
+    intro ops
+    induction ops with
+    | nil => intro s; simp [Sys.runFrom]
+    | cons o os ih =>
+      intro s
+      simp only [Sys.runFrom, List.foldl_cons, List.map_cons, List.sum_cons]
+      have hn : (step cfg s o).now = s.now + (match o with | .advance d => (d : Int) | _ => 0) := by
+        cases o with
+        | reserve p origin cands prio dup chosen =>
+          simp only [step]
+          rcases reserve_cases cfg s p origin cands prio dup chosen with hr | ⟨hr, _⟩
+          · rw [hr]; simp
+          · rw [hr, addAll_now]; simp
+        | markUnsent p i => simp [step, markStatus]
+        | markInvalid p i => simp [step, markStatus]
+        | clear i => simp [step, clear]
+        | clearPeer p => simp [step, clearPeer]
+        | advance d => simp [step]
+      have := ih (step cfg s o)
+      simp only [Sys.runFrom] at this
+      show (List.foldl (step cfg) (step cfg s o) os).now = _
+      have h2 : (List.foldl (sys cfg).step (step cfg s o) os).now = (List.foldl (step cfg) (step cfg s o) os).now := rfl
+      rw [← h2, this, hn]; omega
+  have := this ops (sys cfg).init
+  simpa [Sys.run, Sys.runFrom, sys] using this
+
 /-- marking reaches every held request of that peer and piece (also older duplicates) -/
 theorem mark_reported (cfg : Config) (s : State) (p : Peer) (i : Piece) (r : Req) (hr : r ∈ s.reqs)
     (hp : r.peer = p) (hi : r.piece = i) :
@@ -521,6 +644,8 @@ theorem not_clear_peer_old :
   decide
 
 -- non-vacuity
+example : heldFrom witnessCfg (sys witnessCfg).init (witnessOps ++ [.markUnsent 0 0, .reserve 1 false [0, 1] [0, 0] false [1], .clear 1]) =
+    [(0, 0, 0, .unsent), (0, 0, 6, .unsent)] := by decide
 example : (sys witnessCfg).WFHist (pre fun _ => false) (sys witnessCfg).init witnessOps := by decide
 example : ((sys witnessCfg).run witnessOps).reqs.length = 2 := by decide
 example : failed witnessCfg ((sys witnessCfg).run witnessOps) = [(0, 0, .expired)] := by decide
